@@ -26,3 +26,22 @@ Theorem C14_as_coded_refuted :
          /\ has_type subc (TOpt (TList 0 STR)) (apply AsIs v) = false.
 Proof. exact as_coded_refuted. Qed.
 Print Assumptions C14_as_coded_refuted.
+
+
+(* second sentence of the property, over the converter model of C13 (Model/Conv.v, tied to the library per generated
+   program by C13's correspondence): a destination field that no provider links, that has no same-named source field and
+   - at top level - no same-named parameter, makes converter creation fail when the field is required, or optional while
+   allow_unlinked_optional does not cover it; for every recipe, parameter list, source object and nesting depth *)
+From AV Require Model.Conv Proofs.ConvRefuse.
+Theorem C14_unlinked_field_is_refused : forall recipe ctx fuel top data scls sfs cls dfs name ty required dflt,
+  In (name, ty, required, dflt) dfs -> ConvRefuse.unlinked recipe ctx top sfs name ->
+  required = true \/ Conv.allowed_unlinked recipe name = false ->
+  Conv.convert recipe ctx (S fuel) top data (Conv.TyModel scls sfs) (Conv.TyModel cls dfs) = None.
+Proof. exact ConvRefuse.unlinked_field_refused. Qed.
+Print Assumptions C14_unlinked_field_is_refused.
+
+Theorem C14_allowed_unlinked_optional_keeps_default : forall recipe ctx top sfs name,
+  ConvRefuse.unlinked recipe ctx top sfs name -> Conv.allowed_unlinked recipe name = true ->
+  Conv.link_for recipe top (ConvRefuse.field_names sfs) (map fst ctx) name false = Conv.LUnlinked.
+Proof. exact ConvRefuse.allowed_unlinked_optional_keeps_default. Qed.
+Print Assumptions C14_allowed_unlinked_optional_keeps_default.
